@@ -2,6 +2,7 @@
 //verif:use store,corehelp
 //verif:assume end to end through the real code: implUpload (uploadBundle, uploadBundleFiles, real cafs writer), then implPublish into a fresh consumable store (unpackBundleDescriptor, unpackBundleFileList, unpackDataFiles, real cafs reader with hash verification); BLAKE2b is an injective uninterpreted function, yaml.v2 round-trips opaque documents, ksuid.NewRandom yields fresh ids, stores are in-memory models
 //verif:assume tree: files a (2 symbolic bytes), d/b (1 symbolic byte), e (empty) each present or absent, plus generated-path decoys .datamon/x and d/.datamon (a legal user file); leaf size 64; entries per index file 1..3
+//verif:cover VerifC04Reassembly malformed-middle-file reassembled
 //verif:cover VerifC04Select missing-skipped single-file filtered
 //verif:cover VerifC04UploadDownload decoy-skipped nested-datamon-kept two-index-files empty-bundle
 package core
@@ -179,4 +180,61 @@ func VerifC04Select() {
 	vAssert(!ok, "generated-path-never-uploaded")
 	_, ok = dst.data["nope"]
 	vAssert(!ok, "missing-file-not-invented")
+}
+
+// VerifC04Reassembly: the bundle's entries are reassembled from its index files by position, whatever order the
+// parallel downloads complete in; an index file with the wrong number of entries is refused.
+func VerifC04Reassembly() {
+	vBudget(100000000)
+	vUnwind(100000)
+	meta := newVStore("meta")
+	stores := vCtxStoresAll(meta, meta, newVStore("blob"))
+	vPutRepo(meta, "r")
+	const E = 2
+	nFiles := vChoose("indexFiles", 3) + 1 // 1..3 index files
+	lastLen := vChoose("lastLen", E) + 1   // the last one holds 1..E entries
+	malformed := -1
+	if nFiles >= 2 && vChoose("malformed", 2) == 1 {
+		malformed = vChoose("which", nFiles-1) // a non-last index file that is short by one entry
+		vCover("malformed-middle-file")
+	}
+	var want []string
+	for i := 0; i < nFiles; i++ {
+		n := E
+		if i == nFiles-1 {
+			n = lastLen
+		}
+		if i == malformed {
+			n = E - 1
+		}
+		var es []model.BundleEntry
+		for j := 0; j < n; j++ {
+			name := "f" + string(rune('0'+i)) + string(rune('0'+j))
+			es = append(es, model.BundleEntry{NameWithPath: name, Hash: "h", Size: uint64(vInt("size", 0, 1000))})
+			want = append(want, name)
+		}
+		meta.putRaw(model.GetArchivePathToBundleFileList("r", vB1, uint64(i)), vYaml(model.BundleEntries{BundleEntries: es}))
+	}
+	meta.putRaw(model.GetArchivePathToBundle("r", vB1), vYaml(model.BundleDescriptor{ID: vB1, LeafSize: 64, Deduplication: "blake", BundleEntriesFileCount: uint64(nFiles)}))
+	// each index file read is delayed by a solver-chosen number of scheduling rounds: every completion order occurs
+	meta.sched = func() {
+		for k := vChoose("delay", 3); k > 0; k-- {
+			vYield()
+		}
+	}
+	b := NewBundle(Repo("r"), ContextStores(stores), BundleID(vB1), Logger(zap.NewNop()), ConcurrentFilelistDownloads(3))
+	err := implPublishMetadata(context.Background(), b, false, E)
+	meta.sched = nil
+	if malformed >= 0 {
+		vAssert(err != nil, "index-file-with-a-wrong-entry-count-is-refused")
+		return
+	}
+	vCover("reassembled")
+	vAssert(err == nil, "metadata-download-succeeds")
+	vAssert(len(b.BundleEntries) == len(want), "entries-are-the-concatenation-of-the-index-files")
+	for i := range want {
+		if i < len(b.BundleEntries) {
+			vAssert(b.BundleEntries[i].NameWithPath == want[i], "entries-in-index-order-whatever-the-arrival-order")
+		}
+	}
 }
